@@ -52,6 +52,10 @@ type taskSpec struct {
 	block  int // 0 no, 1 gate opened at a random time, 2 gate opened only when nothing else can move
 }
 
+type nilDerefErr struct{ msg string }
+
+func (e *nilDerefErr) Error() string { return e.msg }
+
 type panicStruct struct {
 	Task int
 	Why  string
@@ -189,6 +193,11 @@ func (w *world) taskFn(i int) func() {
 			_ = a[i+3]
 		case 7:
 			panic(fmt.Errorf("task %d wrapped: %w", i, errors.New("inner")))
+		case 8:
+			// the typed-nil gotcha: an error value holding a nil pointer whose Error method
+			// dereferences it (printing it with %v is safe, calling Error() is not)
+			var e *nilDerefErr
+			panic(error(e))
 		case 4:
 			// panic(nil) with the pre-go1.21 semantics golib's own go.mod (go 1.18) selects:
 			// recover() returns nil.  It is a panic by any reading, so it must neither kill
@@ -212,6 +221,9 @@ func panicText(i, k int) string {
 		return fmt.Sprintf("runtime error: index out of range [%d] with length 0", i+3)
 	case 7:
 		return fmt.Sprintf("task %d wrapped: inner", i)
+	case 8:
+		var e *nilDerefErr
+		return fmt.Sprint(error(e))
 	}
 	return ""
 }
@@ -608,7 +620,7 @@ func gen(r *sim.Rng, tier string) *sim.Case {
 	for i := 0; i < nScript; i++ {
 		t := sim.Op{Op: "Task", K: r.N(3)}
 		if r.Pct(panicPct) {
-			t.V = r.Range(1, 7)
+			t.V = r.Range(1, 8)
 		}
 		if r.Pct(blockPct) {
 			t.D = r.Range(1, 2)
